@@ -96,7 +96,7 @@ kind_to_target = dict(
     log2="Log2({0})",
     log10="Log10({0})",
     ceil="Ceil({0})",
-    floor="Floot({0})",
+    floor="Floor({0})",
     copysign=NotImplemented,
     round="Round({0})",
     sign="Sign({0})",
